@@ -131,9 +131,8 @@ def run(tier, seed):
     do_source('S2-zonedbpy', t3, z3, [(2000, 2038)])
     # ---- S3: bounded mutation family
     fam = mutants.family(two=thorough)
-    if not thorough:
-        # quick: every 3rd mutant (seed-rotated), all seeds themselves
-        fam = [m for m in fam if m[2] == 'seed' or (m[0] + seed) % 3 == 0]
+    # both tiers take the whole one-deviation family (a seed-rotated third missed D15 on two seeds out of three);
+    # thorough adds the two-deviation family
     blocks = [(m[0], m[3]) for m in fam]
     kept, rejected = zic_filter(blocks, 'S3')
     keptset = {k for k, _ in kept}
